@@ -722,8 +722,16 @@ func Run(c *hx.Ctx) error {
 		g.feats = map[string]bool{}
 		g.outOfDomain = false
 		switch k := r.Intn(100); {
-		case k < 72:
+		case k < 62:
 			runExpr(c, g, g.cond(2), false)
+		case k < 68:
+			runFields(c, g, g.fieldList())
+		case k < 69:
+			runSorts(c, g)
+		case k < 71:
+			runSource(c, g)
+		case k < 72:
+			runStmtOpts(c, g)
 		case k < 80:
 			t := g.cond(2)
 			if !strings.Contains(t, "/a b/") { // (cutting a regex in two can make it invalid; the model does not compile regexes)
